@@ -93,6 +93,14 @@ theorem fractional_factor_sum :
     rects (layout { rowC with width := 80 } [{ flex110 with grow := 1/2, sHeight := some 10 }]) =
       some [(0, 0, 80, 10)] := by decide +kernel
 
+/-- id=flex-content-base-clamped.  `flex:1 1 auto; min-width:20px` (no width: content-sized) next to
+`flex:1 1 auto; width:20px` in 100px: the content flex base size (0) is already clamped to 20 by
+`max_content_width`, so the free space is 60 instead of 80 and the items get 50 + 50 (40 + 60 expected). -/
+theorem content_base_clamped :
+    rects (layout rowC [{ item with grow := 1, sMinW := some 20, sHeight := some 5 },
+                        { item with id := 1, grow := 1, sWidth := some 20, sHeight := some 5 }]) =
+      some [(0, 0, 50, 5), (50, 0, 50, 5)] := by decide +kernel
+
 end Flex
 
 /-! ## Grid -/
